@@ -1,6 +1,7 @@
 import KitProofs.Lemmas.CoalescingWindow
 import KitProofs.Lemmas.CoalescingProgress
 import KitProofs.Lemmas.CoalescingSim
+import KitProofs.Lemmas.CoalescingTimeline
 /-!
 Property C09 — coalescing rate limiter (`events/ratelimiting/coalescing.go`).
 
@@ -332,6 +333,46 @@ theorem deadline_bound {cfg : Config} {s s' : State} (hopen : s.timer.isSome = t
 example : ((exec demo0 (init demo0) [.runCall, .run, .top, .add, .deliver, .add, .top, .advance 30]).bind fun s =>
     (step demo0 s .deliver).map fun s' =>
       (s.timer.isSome, capReached demo0 s, s.pending, s'.timer)) = some (true, false, 1, some 230) := by
+  decide +kernel
+
+/-! ### timelines: the signal times as an explicit function of the Add times -/
+
+open Kit.Coalescing.Timeline in
+/-- No cap, prompt consumer, running limiter. For every timeline `evs` of `Add`s and clock stops,
+the LTS executed urgently (after each event the limiter's goroutines run until none is enabled —
+`script`) runs to completion, the consumer receives exactly at the clock values `spec cfg {} evs`
+— the function that restates the property: first `Add` without an open window at once, window
+`initial`, each further `Add` in the window moves its end to `now + min(max, initial·2^k)`, one
+signal at the end of a window iff an `Add` waited — and the final state is quiescent again. -/
+theorem signals_timeline_spec {cfg : Config} (hv : cfg.valid) (hn : NoOvf cfg) (hcap : cfg.cap = none)
+    (evs : List TEv) :
+    ∃ s', exec cfg (init cfg) ([.runCall, .run, .top] ++ script cfg {} evs) = some s' ∧
+      recvTimes cfg (start cfg) (script cfg {} evs) = spec cfg {} evs ∧
+      Reach cfg s' ∧ (∀ l, l.internal = true → step cfg s' l = none) ∧
+      s'.consumed = s'.fires ∧ s'.now = (specEnd cfg {} evs).now := by
+  obtain ⟨s', e, r, t⟩ := rel_run hv hn hcap evs (start_rel cfg)
+  refine ⟨s', ?_, t, r.reach, r.quiescent hv, r.allRecv, r.now⟩
+  rw [exec_append, start_exec]; exact e
+
+open Kit.Coalescing.Timeline in
+/-- Continuous time (every window end is a clock stop): `Add`s at the clock values `ts` are
+signalled exactly at `signalTimes cfg ts`. -/
+theorem signals_timeline_continuous {cfg : Config} (hv : cfg.valid) (hn : NoOvf cfg) (hcap : cfg.cap = none)
+    (ts : List Nat) :
+    ∃ s', exec cfg (start cfg) (script cfg {} (expand cfg {} ts)) = some s' ∧
+      recvTimes cfg (start cfg) (script cfg {} (expand cfg {} ts)) = signalTimes cfg ts := by
+  obtain ⟨s', e, _, t⟩ := rel_run hv hn hcap (expand cfg {} ts) (start_rel cfg)
+  exact ⟨s', e, t⟩
+
+open Kit.Coalescing.Timeline in
+/-- initial 100, max 400, no cap. One `Add`: signalled at once. Two `Add`s 30 apart: the second at
+the end of the extended window 130 + 200. A burst 0,10,20,30: signals at 0 and at 30 + 400 (window
+lengths 100, 200, 400, 400). `Add`s after the window closed (0, then 100 = exactly at its end): both
+at once. The README's shape 500ms,1s,2s,4s,5s,5s: see `window_growth`. -/
+example : signalTimes demo0 [7] = [7] ∧ signalTimes demo0 [100, 130] = [100, 330] ∧
+    signalTimes demo0 [0, 10, 20, 30] = [0, 430] ∧ signalTimes demo0 [0, 100] = [0, 100] ∧
+    signalTimes demo0 [0, 50, 249, 250, 1000] = [0, 650, 1000] ∧
+    spec demo0 {} [.add, .adv 40, .add, .adv 500, .add] = [0, 500, 500] := by
   decide +kernel
 
 /-! ### the back-off arithmetic stays inside int64 -/
